@@ -252,6 +252,15 @@ func runWorkers(bin, prop, tier string, seed int64, shards, onlyCase int, extraE
 			if onlyCase >= 0 {
 				env = append(env, "VERIF_ONLY_CASE="+strconv.Itoa(onlyCase))
 			}
+			// ambient variables an interactive shell, a terminal multiplexer or a CI image exports;
+			// none of them has a say in any property. A function of the shard index, so a replay
+			// (which runs the case in the same shard) sees the same environment.
+			env = append(env, [][]string{
+				nil,
+				{"COLUMNS=80", "LINES=24", "TERM=xterm-256color", "COLORTERM=truecolor"},
+				{"COLUMNS=120", "TERM=dumb", "LANG=tr_TR.UTF-8", "LC_ALL=tr_TR.UTF-8"},
+				{"COLUMNS=40", "LINES=10", "TZ=Pacific/Kiritimati", "GOMAXPROCS=3", "GODEBUG=gctrace=0"},
+			}[i%4]...)
 			env = append(env, extraEnv...)
 			cmd.Env = env
 			var eb bytes.Buffer
